@@ -19,7 +19,7 @@ ASSUMPTIONS = [
     "granularity: volume traded in the interval that contains the arrival instant counts as traded after arrival",
     "rounding: fragments are rounded to 2dp, 0.005 per (update, price level) event is tolerated",
     "the lone-order equality is asserted only for orders that were alone in their pool on the runner for their whole life and were not cancelled/voided in between",
-    "simulation_available_prices (documented double counting mode) is off; best_price_execution is off in a quarter of the scenarios",
+    "simulation_available_prices (documented double counting mode) is off; best_price_execution is off in a quarter of the scenarios; 15% of the scenarios add a second market of the same event (same runners and publish times, event_processing)",
 ]
 COMPONENTS = common.COMPONENTS_A
 MONITORS = [LedgerMonitor, PackageTracker, FillMonitor, PassiveMonitor]
@@ -52,6 +52,27 @@ def generate(rng, i, tier):
     )
     sc["cfg"]["isolation"] = rng.random() < 0.7
     import random
+
+    side0 = random.Random("c06-two|%d" % rng.getrandbits(32))
+    if side0.random() < 0.15:
+        # the same race as two markets (e.g. WIN and PLACE: same selection ids, recorded from one connection so that the
+        # publish times coincide), processed as one event group: fills of one market must come from ITS traded volume
+        m2 = common.marketgen.gen_market(side0, 1, dict(knobs, n_runners=(len(sc["markets"][0]["runners"]), len(sc["markets"][0]["runners"]))), t0=sc["markets"][0]["updates"][0]["pt"], event_id="30000001")
+        m1 = sc["markets"][0]
+        m1["event_id"] = "30000001"
+        if m2["runners"] == m1["runners"]:
+            for ua, ub in zip(m1["updates"], m2["updates"]):
+                ub["pt"] = ua["pt"]
+            if len(m2["updates"]) > len(m1["updates"]):
+                base = m1["updates"][-1]["pt"]
+                for k2, u in enumerate(m2["updates"][len(m1["updates"]):]):
+                    u["pt"] = base + 1000 * (k2 + 1)
+            sc["markets"].append(m2)
+            for st in sc["strategies"]:
+                st["markets"] = [0, 1]
+                st["event_processing"] = True
+                common.agentgen.add_script(side0, sc, dict(st, markets=[1]), mix)
+            sc["two_markets_one_event"] = True
 
     side = random.Random("c06-cfg|%d" % rng.getrandbits(32))
     if side.random() < 0.25:
